@@ -79,13 +79,16 @@ func zzIntClass(mid bool) int {
 // Shape of generated values. d carries the nesting depth (bits 0..7), the integer class
 // (bits 8..15) and the inner shape (bit 16). At depth 0 every sequence length (0, 1 or 2),
 // optional presence and map entry is an independent choice; at depth 1 all of them follow the
-// inner-shape bit (all one element / present, or all empty / absent); deeper levels are empty.
+// inner-shape bit (all one element / present, or all empty / absent); depth 2 does the same when
+// bit 18 (deep shape) is set and is empty otherwise; deeper levels are empty.
 func zzLen(d int, tag string) int {
 	switch d & 0xff {
 	case 0:
 		return zzvt.Range(tag, 0, 2)
 	case 1:
 		return 1 - d>>16&1
+	case 2:
+		return (d >> 18 & 1) * (1 - d>>16&1)
 	}
 	return 0
 }
@@ -96,6 +99,8 @@ func zzPresent(d int, tag string) bool {
 		return zzvt.Bool(tag)
 	case 1:
 		return d>>16&1 == 0
+	case 2:
+		return d>>18&1 == 1 && d>>16&1 == 0
 	}
 	return false
 }
@@ -112,6 +117,8 @@ func zzBytesLen(d int, tag string) int {
 		return zzvt.Range(tag, 0, 2)
 	case 1:
 		return 1 - d>>16&1
+	case 2:
+		return (d >> 18 & 1) * (1 - d>>16&1)
 	}
 	return 0
 }
